@@ -1,4 +1,4 @@
-import ShVerif.Proofs.C12Complete
+import ShVerif.Proofs.C12Variants
 /-
   C12 — parser acceptance agrees with the real shells, at token level.
 
@@ -70,6 +70,55 @@ theorem agree_partial (l : Lang) (ts : List Tok)
   unfold accepts
   rw [h]
   exact ⟨sound _ ts, complete _ ts⟩
+
+/-! The same, finding by finding: the rule variants are switched from Go's value to the shell's one
+    at a time; each hypothesis says that one open finding (or the documented `!` difference) does
+    not change the parser's answer on `ts`. -/
+
+/-- Go's parser with the findings fixed one after the other (`k` of them), in the order
+    C12-else-in-command, C12-reserved-after-redirect, C12-closer-after-redirect, C12-func-body,
+    then C12-for-assign-posix (POSIX) / the documented lone-`!` difference (Bash). -/
+def fixedCfg (l : Lang) : Nat → Cfg
+  | 0 => goCfg l
+  | 1 => { goCfg l with elseInCmd := false }
+  | 2 => { goCfg l with elseInCmd := false, rsrvAfterIO := false }
+  | 3 => { goCfg l with elseInCmd := false, rsrvAfterIO := false, closerAfterRedir := false }
+  | 4 => { goCfg l with elseInCmd := false, rsrvAfterIO := false, closerAfterRedir := false,
+                        fnBody := (shCfg l).fnBody }
+  | _ => shCfg l
+
+theorem agree_partial_by_finding (l : Lang) (ts : List Tok)
+    (h_else_in_command : parse (fixedCfg l 0) ts = parse (fixedCfg l 1) ts)
+    (h_reserved_after_redirect : parse (fixedCfg l 1) ts = parse (fixedCfg l 2) ts)
+    (h_closer_after_redirect : parse (fixedCfg l 2) ts = parse (fixedCfg l 3) ts)
+    (h_func_body : parse (fixedCfg l 3) ts = parse (fixedCfg l 4) ts)
+    (h_for_assign_or_lone_bang : parse (fixedCfg l 4) ts = parse (fixedCfg l 5) ts) :
+    accepts l ts = true ↔ Derives (shCfg l) .program .closed ts :=
+  agree_partial l ts
+    (h_else_in_command.trans (h_reserved_after_redirect.trans (h_closer_after_redirect.trans
+      (h_func_body.trans h_for_assign_or_lone_bang))))
+
+/-- C12-for-assign-posix cannot apply to a token list that does not contain both `for` and an
+    assignment-looking word: there its rule variant provably does not change the answer. -/
+theorem for_assign_irrelevant (ts : List Tok) (h : ¬ (kFor ∈ ts ∧ assign ∈ ts)) :
+    parse (fixedCfg .posix 4) ts = parse (fixedCfg .posix 5) ts :=
+  parse_forAssign (c := fixedCfg .posix 4) (c' := fixedCfg .posix 5) (by constructor <;> decide) ts h
+
+/-- C12 for LangPOSIX vs dash with the hypothesis about C12-for-assign-posix replaced by the
+    syntactic condition "not both `for` and an assignment word occur". -/
+theorem agree_partial_posix (ts : List Tok)
+    (h_else_in_command : parse (fixedCfg .posix 0) ts = parse (fixedCfg .posix 1) ts)
+    (h_reserved_after_redirect : parse (fixedCfg .posix 1) ts = parse (fixedCfg .posix 2) ts)
+    (h_closer_after_redirect : parse (fixedCfg .posix 2) ts = parse (fixedCfg .posix 3) ts)
+    (h_func_body_bang : parse (fixedCfg .posix 3) ts = parse (fixedCfg .posix 4) ts)
+    (h_no_for_assign : ¬ (kFor ∈ ts ∧ assign ∈ ts)) :
+    accepts .posix ts = true ↔ Derives (shCfg .posix) .program .closed ts :=
+  agree_partial_by_finding .posix ts h_else_in_command h_reserved_after_redirect
+    h_closer_after_redirect h_func_body_bang (for_assign_irrelevant ts h_no_for_assign)
+
+/-- The recogniser-level statement on the same region. -/
+theorem agree_recognisers_partial (l : Lang) (ts : List Tok)
+    (h : parse (goCfg l) ts = parse (shCfg l) ts) : accepts l ts = shellAccepts l ts := h
 
 /-- … and outside that region the property fails, by definition of the region. -/
 theorem agree_fails_outside (l : Lang) (ts : List Tok)
